@@ -184,6 +184,39 @@ def check_objects():
     return None
 
 
+def check_into():
+    """recv_bytes_into(buf, offset) over a real pipe: the message lands at the offset and nowhere else, or is refused
+    whole (BufferTooShort carrying it) when it does not fit behind the offset"""
+    for bufsize in (0, 4, 8):
+        for offset in range(0, bufsize + 1):
+            for ln in (0, 1, 4, 5, 8, 9):
+                r, w = os.pipe()
+                cw, cr = connection.Connection(w, readable=False), connection.Connection(r, writable=False)
+                try:
+                    msg = bytes(range(65, 65 + ln))
+                    cw.send_bytes(msg)
+                    cw.send_bytes(b'next')
+                    buf = bytearray(b'.' * bufsize)
+                    try:
+                        n = cr.recv_bytes_into(buf, offset)
+                        got = ('ok', n)
+                    except connection.BufferTooShort as e:
+                        got = ('short', e.args[0])
+                    fits = offset + ln <= bufsize
+                    if fits and (got != ('ok', ln) or bytes(buf) != b'.' * offset + msg + b'.' * (bufsize - offset - ln)):
+                        return 'buffer of %d bytes, offset %d, message of %d: %r, buffer %r' % (bufsize, offset, ln, got, bytes(buf))
+                    if not fits and (got != ('short', msg) or bytes(buf) != b'.' * bufsize):
+                        return ('buffer of %d bytes, offset %d, message of %d bytes does not fit behind the offset: %r, '
+                                'buffer now %r (expected BufferTooShort carrying the message, buffer untouched)' % (
+                                    bufsize, offset, ln, got, bytes(buf)))
+                    if cr.recv_bytes() != b'next':
+                        return 'the message after it was not received intact'
+                finally:
+                    cw.close()
+                    cr.close()
+    return None
+
+
 def search(fn):
     steps = [1, 2, 3, ('err', errno.EINTR)]
     for ln in range(0, 6):
@@ -218,6 +251,12 @@ def main():
     data = json.load(open(sys.argv[1]))
     fn = data['function'].rsplit('.', 1)[1]
     print('replay of %s / %s' % (data['function'], data['obligation']))
+    if fn == 'recv_bytes_into':
+        bad = check_into()
+        if bad:
+            print('  violation on real code: %s' % bad)
+        print('REPRODUCED on real code' if bad else 'not reproduced')
+        sys.exit(1 if bad else 0)
     if fn in ('send', 'recv'):
         bad = check_objects()
         if bad:
